@@ -22,6 +22,7 @@
                       (prev_dp, prev_voa); the walk starts from the ROADM/transceiver output target.
  Rm memo          : every memoisation construct in the functions behind this property is keyed by everything it reads.
  Rp presence      : optional numeric fields are tested with `is None` / membership, never by truthiness (0 is a value).
+ Rv verbose       : blocks guarded by the verbose flag only report; the design does not depend on the logging flag.
 """
 import ast
 
@@ -401,6 +402,15 @@ def r6_span_loss(ctx):
 
 
 
+def rv_verbose(ctx):
+    """Rv: blocks guarded by the `verbose` flag only report (no value read after the block, no object state written, no exit):
+    the design does not depend on the logging flag"""
+    from .common import verbose_rule
+    from ..memo import scope_funcs
+    verbose_rule(ctx, 'Rv.verbose-pure', scope_funcs(ctx.repo, 'C09'), 'the designed gains and powers would depend on the logging flag')
+    ctx.need('Rv.verbose-pure', 3)
+
+
 from ..memo import rule_for as _memo_rule
 
 RULES_MEMO = ('Rm.memo', _memo_rule('C09', 'the operating point designed for another element or reference would be reused'))
@@ -410,4 +420,4 @@ from ..presence import rule_for as _presence_rule
 
 RULES_PRESENCE = ('Rp.presence', _presence_rule('C09', 'a configured power / gain / VOA of exactly 0 would be replaced by another value in the budget'))
 
-RULES = [('R6.span-loss', r6_span_loss), ('R1.budget', r1_budget), ('R2.rule', r2_rule), ('R3.saturation', r3_saturation), ('R4.voa', r4_voa), ('R5.chaining', r5_chaining), RULES_MEMO, RULES_PRESENCE]
+RULES = [('R6.span-loss', r6_span_loss), ('R1.budget', r1_budget), ('R2.rule', r2_rule), ('R3.saturation', r3_saturation), ('R4.voa', r4_voa), ('R5.chaining', r5_chaining), RULES_MEMO, RULES_PRESENCE, ('Rv.verbose-pure', rv_verbose)]
